@@ -24,7 +24,7 @@ type Handshake struct{}
 func (Handshake) ID() string { return "C19" }
 
 // Version implements harness.Harness.
-func (Handshake) Version() string { return "c19-handshake-v1" }
+func (Handshake) Version() string { return "c19-handshake-v2" }
 
 // Runs implements harness.Harness.
 func (Handshake) Runs(tier string) int {
@@ -38,7 +38,7 @@ func (Handshake) Runs(tier string) int {
 func (Handshake) Meta() harness.Meta {
 	return harness.Meta{
 		Rule: "part (b), driver handshake: each run = one seeded (configuration, translation request sequence, schedule, fault sequence): the real amd/driver.Driver (page table, memory allocator, migration state machine) and the real akita mmu.Comp (drawn walk latency and in-flight limit) between 2-4 stub command processors, each answering the driver's protocol (RDMA drain, TLB shootdown, page migration - the stub copies the page in a model memory from the address it is told to read to the address it is told to write -, GPU restart, RDMA restart) after drawn latencies and in drawn order, and one stub L2 TLB per GPU sending translation requests for unified pages (homed on GPU 1 by the allocator), plain pages and pages of a second process with the same virtual addresses; fault-injecting links everywhere. " +
-			"Oracle over the port histories and the real vm.PageTable: every translation answered exactly once with the right process/virtual page, on the requesting device unless the page had been migrated (pinned) before or is not unified, physical page inside that device and disjoint from every other live page, page contents at the answered physical address equal to the virtual page's contents; handshake order per migration (drain all - all acknowledged - shootdown - acknowledged - migrate with old/new physical address, page size and the old host's PMC port - done - restart GPUs - restart RDMA), one reply to the MMU per migration request, no new migration before the previous one finished; at quiescence: everything answered, no page's mapping or contents changed except the migrated ones. " +
+			"Oracle over the port histories and the real vm.PageTable: every translation answered exactly once with the right process/virtual page, on the requesting device unless the page had been migrated (pinned) before or is not unified, physical page inside that device and disjoint from every other live page, page contents at the answered physical address equal to the virtual page's contents; handshake order per migration (drain all - all acknowledged - shootdown - acknowledged - migrate with old/new physical address, page size and the old host's PMC port - done - restart GPUs - restart RDMA), one reply to the MMU per migration request, no new migration before the previous one finished; at quiescence: everything answered, no page's mapping or contents changed except the migrated ones; in half of the runs, while a page copy is in flight the application allocates the leaving GPU's free pages, frees one and allocates again (the free list wraps), and frees them all: no buffer may get the frame the copy reads from or a frame of any live page. " +
 			"non-trivial = a fault fired or a tie was reordered and at least one migration completed; distinct = distinct (configuration digest, port-event-order digest)",
 		RealComponents: []string{"amd/driver.Driver (Tick: parseFromMMU ... processRDMARestartRspToDriver, preparePageForMigration, memory allocator)", "akita mmu.Comp", "akita vm.PageTable", "akita sim.Port"},
 		StubComponents: []string{"command processors (protocol responders with a model memory)", "L2 TLBs (scripted requesters)", "engine (SeededEngine)", "connections (FaultyConn)"},
@@ -48,7 +48,7 @@ func (Handshake) Meta() harness.Meta {
 			"pages are not written during a run, so a page's contents identify it",
 		},
 		FaultKinds:     []string{"tie_reorder", "delay", "cross_reorder", "backpressure", "slow_lower_level", "ooo_response"},
-		ExpectedProbes: []string{"migration_completed", "request_for_page_being_migrated", "request_after_pinned", "second_process_same_vaddr", "four_gpus", "plain_page_remote_access", "queued_migrations"},
+		ExpectedProbes: []string{"allocation_during_migration_window", "migration_completed", "request_for_page_being_migrated", "request_after_pinned", "second_process_same_vaddr", "four_gpus", "plain_page_remote_access", "queued_migrations"},
 		ShrinkBudget:   300,
 	}
 }
@@ -98,7 +98,12 @@ func runHandshake(ch *choice.Source, opt harness.Options, realCP bool) harness.R
 	nReq := 1 + ch.Intn(14, "nreq")
 	walkLat := 1 + ch.Intn(12, "walklat")
 	inflight := 1 + ch.Intn(8, "mmu.inflight")
+	// migration-window probe: while a page copy is in flight, the application allocates and frees
+	// device memory on the GPU the page is leaving (see windowProbe below)
+	winProbe := ch.Bool(1, 2, "winprobe")
 	r.Mix("cfg", []int{nGPU, nUnified, nPlain, nReq, walkLat, inflight})
+	r.Mix("winprobe", winProbe)
+	var windowProbe func()
 	probes := map[string]uint64{}
 	if nGPU == 4 {
 		probes["four_gpus"] = 1
@@ -161,6 +166,9 @@ func runHandshake(ch *choice.Source, opt harness.Options, realCP bool) harness.R
 			case *protocol.ShootDownCommand:
 				return mk(&protocol.ShootDownCompleteRsp{})
 			case *protocol.PageMigrationReqToCP:
+				if windowProbe != nil {
+					windowProbe()
+				}
 				// the stub performs the copy it is asked for
 				from, to := req.ToReadFromPhysicalAddress, req.ToWriteToPhysicalAddress
 				if req.PageSize != pageSize || from%pageSize != 0 || to%pageSize != 0 {
@@ -192,7 +200,11 @@ func runHandshake(ch *choice.Source, opt harness.Options, realCP bool) harness.R
 	}
 	if realCP {
 		for g := 0; g < nGPU; g++ {
-			proc, pmc, ora := buildRealCP(r, ch, g, d.GetPortByName("GPU"), memModel, pageSize, fail, probes)
+			proc, pmc, ora := buildRealCP(r, ch, g, d.GetPortByName("GPU"), memModel, pageSize, fail, probes, func() {
+				if windowProbe != nil {
+					windowProbe()
+				}
+			})
 			cpPorts = append(cpPorts, proc.ToDriver)
 			cpOras = append(cpOras, ora)
 			d.RegisterGPU(proc.ToDriver, driver.DeviceProperties{CUCount: 4, DRAMSize: gpuPages * pageSize})
@@ -251,6 +263,81 @@ func runHandshake(ch *choice.Source, opt harness.Options, realCP bool) harness.R
 			data[k] = pageByte(p.seed, k)
 		}
 		memModel[pg.PAddr] = data
+	}
+
+	// ---- migration-window probe ----
+	// A lower bound of the free pages of every GPU: its size minus everything ever allocated on it
+	// (a migrated page's old frame is never counted as free again, whether or not the driver frees it).
+	allocatedOn := make([]int, nGPU+1)
+	for _, p := range pages {
+		if g := devOf(p.curPAddr); g >= 1 {
+			allocatedOn[g]++
+		}
+	}
+	var migSrcDev int
+	var migSrcPAddr uint64
+	if winProbe {
+		windowProbe = func() {
+			g := migSrcDev
+			if viol != nil || g < 1 || g > nGPU {
+				return
+			}
+			free := gpuPages - allocatedOn[g]
+			if free < 1 {
+				return
+			}
+			if free > 1 && ch.Bool(1, 2, "winprobe.partial") {
+				free = 1 + ch.Intn(free, "winprobe.n") // do not always drain the GPU
+			}
+			ctx := ctxs[0]
+			d.SelectGPU(ctx, g)
+			var mine []uint64
+			minePAddr := map[uint64]uint64{}
+			check := func(ptr uint64, step string) bool {
+				pg, ok := pt.Find(vm.PID(ctx.VerifPID()), ptr)
+				if !ok {
+					fail("R2", "allocated-page-not-mapped", "buffer %#x allocated on GPU %d during a migration is not in the page table", ptr, g)
+					return false
+				}
+				if pg.PAddr == migSrcPAddr {
+					fail("R2", "source-page-reallocated-during-copy", "%s: a buffer allocated on GPU %d while a page is being copied away from it got the very frame %#x the copy reads from (still mapped by the migrating page)", step, g, pg.PAddr)
+					return false
+				}
+				for _, o := range pages {
+					if og, ok := pt.Find(o.pid, o.vaddr); (ok && og.PAddr == pg.PAddr) || o.curPAddr == pg.PAddr {
+						fail("R2", "physical-page-aliased", "%s: buffer %#x allocated on GPU %d during a migration got physical page %#x, which holds pid %d vaddr %#x", step, ptr, g, pg.PAddr, o.pid, o.vaddr)
+						return false
+					}
+				}
+				for v, pa := range minePAddr {
+					if pa == pg.PAddr && v != ptr {
+						fail("R2", "physical-page-aliased", "%s: two live buffers %#x and %#x got physical page %#x", step, v, ptr, pa)
+						return false
+					}
+				}
+				minePAddr[ptr] = pg.PAddr
+				return true
+			}
+			for i := 0; i < free; i++ {
+				ptr := uint64(d.AllocateMemory(ctx, pageSize))
+				mine = append(mine, ptr)
+				if !check(ptr, "fill") {
+					return
+				}
+			}
+			// free one, allocate one: the allocator's free list has wrapped around
+			victim := ch.Intn(len(mine), "winprobe.victim")
+			_ = d.FreeMemory(ctx, driver.Ptr(mine[victim]))
+			delete(minePAddr, mine[victim])
+			mine[victim] = uint64(d.AllocateMemory(ctx, pageSize))
+			if !check(mine[victim], "free-one-allocate-one") {
+				return
+			}
+			for _, ptr := range mine {
+				_ = d.FreeMemory(ctx, driver.Ptr(ptr))
+			}
+			probes["allocation_during_migration_window"]++
+		}
 	}
 
 	// ---- requesters (one L2 TLB per GPU) ----
@@ -432,6 +519,8 @@ func runHandshake(ch *choice.Source, opt harness.Options, realCP bool) harness.R
 							fail("R2", "copy-overwrites-live-page", "page copy writes %#x which holds pid %d vaddr %#x", m.ToWriteToPhysicalAddress, o.pid, o.vaddr)
 						}
 					}
+					migSrcDev, migSrcPAddr = int(p.curDev), p.curPAddr
+					allocatedOn[wantDev]++
 					p.curPAddr, p.curDev, p.migrated = m.ToWriteToPhysicalAddress, wantDev, true
 				case *protocol.GPURestartReq:
 					ep.restartSent++
